@@ -975,6 +975,23 @@ func runCtor(c *Ctx) {
 			c.OK(c.P.Pos(mast.Field(i).Pos()), construct, "tabled: not part of the persisted state", true)
 			continue
 		}
+		// sibling agreement: a field that no constructor of the repository assigns (a label, a statistics counter, a
+		// per-session mark added later) starts at its zero value in every tree, loaded or new — there is nothing for
+		// LoadMast to carry over. Only a field another constructor does set must be set here as well.
+		setSomewhere := false
+		for _, ct := range ctors {
+			for _, b := range ct.fn.Blocks {
+				for _, ins := range b.Instrs {
+					if _, f2, _, ok := mastFieldStore(ins); ok && f2 == f {
+						setSomewhere = true
+					}
+				}
+			}
+		}
+		if !setSomewhere {
+			c.OK(c.P.Pos(mast.Field(i).Pos()), construct, "no constructor assigns it: every tree starts with its zero value", true)
+			continue
+		}
 		if isFuncField[f] && needed[f] != "" {
 			continue // decided above
 		}
